@@ -218,6 +218,47 @@ def inv(prog: Program, res: Result, functions: Iterable[str]) -> None:
             desc_k = kwarg(u[1], "kind")
         if ok:
             res.ok("INV", short, desc, prog.loc(fi, inv_[0][2]), f"forward {sorted(pnames)}, inverse {ast.unparse(inv_[0][1])}")
+        # must-pass-through: on every returning path that lays the data out by the forward permutation, the inverse is applied,
+        # unless the test that skipped it says the permutation has at most one element (trivially the identity)
+        from ..paths import enumerate_paths
+        fwd_nodes = {id(u[2]) for u in fwd}
+        inv_nodes = {id(u[2]) for u in inv_}
+        desc2 = "the inverse permutation is applied on every path that applied the forward one (skipped only for a permutation of at most one mode)"
+        bad_path = None
+        n_paths = 0
+        for items, end in enumerate_paths(fi.node.body, limit=20000):
+            if end == "raise":
+                continue
+            did_f = did_i = False
+            skipped_by = []
+            for kind, st in items:
+                if kind in ("stmt", "return"):
+                    ids = {id(x) for x in ast.walk(st)}
+                    did_f = did_f or bool(ids & fwd_nodes)
+                    did_i = did_i or bool(ids & inv_nodes)
+                elif kind == "if-false" and any(id(x) in inv_nodes for b in st.body for x in ast.walk(b)):
+                    skipped_by.append(st.test)
+            if not did_f:
+                continue
+            n_paths += 1
+            if did_i:
+                continue
+            trivial = False
+            for t in skipped_by:
+                if isinstance(t, ast.Compare) and len(t.ops) == 1 and isinstance(t.ops[0], ast.Gt) and const(t.comparators[0]) in (0, 1):
+                    l = t.left
+                    sized = (isinstance(l, ast.Attribute) and l.attr == "size" and ast.unparse(l.value) in pnames) or \
+                            (isinstance(l, ast.Call) and (dotted(l.func) or "").split(".")[-1] in ("len", "size") and l.args and ast.unparse(l.args[0]) in pnames)
+                    trivial = trivial or sized
+            if not trivial:
+                bad_path = skipped_by[-1] if skipped_by else fi.node
+        if bad_path is not None:
+            txt = ast.unparse(bad_path)[:80] if isinstance(bad_path, ast.expr) else "(no test)"
+            res.bad("INV", short, desc2, prog.loc(fi, bad_path),
+                    f"a returning path applies the forward layout but not the inverse; it is skipped under `not ({txt})`, which does not say that "
+                    "the permutation is trivial: a one-sided (vectorised) matricisation still lists its modes in the given order")
+        elif n_paths:
+            res.ok("INV", short, desc2, prog.loc(fi), f"{n_paths} path(s)")
 
 
 def fwd_convention(prog: Program, res: Result, functions: Iterable[str]) -> None:
